@@ -17,7 +17,10 @@ def want_txt(rng):
     return rng.choice(["-", "-", "n4", "n6", "both"])
 
 
-def addr_in_family(rng, v6, base):
+def addr_in_family(rng, v6, base, special=False):
+    if v6 and special:
+        # IPv4-mapped (::ffff:a.b.c.d) and IPv4-compatible forms: still IPv6 socket addresses
+        return comp.Addr(True, ((0xFFFF << 32) if rng.chance(2, 3) else 0) | (10 << 24) | base, rng.range(1024, 65000))
     if v6:
         return comp.Addr(True, (0x20010DB8 << 96) | base, rng.range(1024, 65000))
     return comp.Addr(False, (10 << 24) | base, rng.range(1024, 65000))
@@ -39,7 +42,7 @@ def gen_server(rng, consts, many_peers=False, long_times=False):
     resps = []
     world = []
     for i in range(nresp):
-        a = addr_in_family(rng, v6, 100 + i)
+        a = addr_in_family(rng, v6, 100 + i, special=rng.chance(1, 3))
         idv = comp.rand_id(rng) if rng.chance(2, 3) else own ^ (1 << rng.below(160))
         mode = "normal" if i == 0 or rng.chance(3, 4) else "silent"
         sc.add_resp("r%d" % i, a, idv, mode)
@@ -47,10 +50,11 @@ def gen_server(rng, consts, many_peers=False, long_times=False):
         world.append((idv, a))
     # extra names that do not exist (hearsay)
     for i in range(rng.range(0, 6)):
-        world.append((comp.rand_id(rng), addr_in_family(rng, v6, 200 + i)))
+        world.append((comp.rand_id(rng), addr_in_family(rng, v6, 200 + i, special=rng.chance(1, 3))))
     if world:
         sc.add("world " + " ".join("%040x@%s" % (i, a.script()) for i, a in world))
-    sc.add_node("n", naddr, own, ro=ro, aport=None, nodes=[a for a, _ in resps[:3]])
+    ro_default = ro and rng.chance(1, 2)       # read-only by NOT configuring it: the builder's documented default
+    sc.add_node("n", naddr, own, ro=ro, aport=None, nodes=[a for a, _ in resps[:3]], ro_default=ro_default)
     meta = {"v6": v6, "ro": ro, "own": own, "naddr": naddr}
     srcs = [addr_in_family(rng, v6, 1000 + i) for i in range(rng.range(2, 6))]
     src_ids = [comp.rand_id(rng) for _ in srcs]
@@ -101,7 +105,7 @@ def gen_server(rng, consts, many_peers=False, long_times=False):
                 t, src.script(), naddr.script(), tid, sid, rng.choice(hashes), want_txt(rng)))
             got_token.add(k)
         elif r < 17:
-            variant = rng.choice(["last", "last", "last", "flip", "short", "long", "zero", "empty"])
+            variant = rng.choice(["last", "last", "last", "last", "flip", "short", "long", "zero", "empty", "huge"])
             if rng.chance(1, 6) and len(srcs) > 1:
                 other = srcs[(k + 1) % len(srcs)]
                 variant = "other@" + other.script()
@@ -151,7 +155,7 @@ def place_ids(rng, n, target, own, style):
     return list(ids)
 
 
-def gen_lookup(rng, consts, hostile=False, faults=False, early=False, sizes=None):
+def gen_lookup(rng, consts, hostile=False, faults=False, early=False, sizes=None, as_routers=False):
     """Family B: one real node searching in a world of scripted responders."""
     sc = simlib.Scenario()
     v6 = rng.chance(1, 5)
@@ -186,7 +190,12 @@ def gen_lookup(rng, consts, hostile=False, faults=False, early=False, sizes=None
     contacts = [a for _, a in rng_sample(rng, world, rng.range(1, min(8, len(world))))]
     ro = rng.chance(1, 2)
     aport = None if rng.chance(1, 2) else rng.range(1, 65535)
-    sc.add_node("n", naddr, own, ro=ro, aport=aport, nodes=contacts)
+    if as_routers:
+        # contacts configured as routers only: they never enter the table, the node knows only whom they name, and (with fewer
+        # than 10 good nodes) never reaches the Bootstrapped state -- no refresh timer runs beside the search's own timers
+        sc.add_node("n", naddr, own, ro=ro, aport=aport, nodes=[], routers=contacts[:2])
+    else:
+        sc.add_node("n", naddr, own, ro=ro, aport=aport, nodes=contacts)
     if faults and rng.chance(1, 2):
         sc.add("loss %d" % rng.choice([50, 200]))
     if faults and rng.chance(1, 3):
@@ -202,6 +211,10 @@ def gen_lookup(rng, consts, hostile=False, faults=False, early=False, sizes=None
         an = rng.chance(2, 3)
         sc.add("at %d search n %040x %d s%d" % (t, ih, 1 if an else 0, k))
         searches.append({"tag": "s%d" % k, "ih": ih, "announce": an, "t": t})
+        if as_routers or rng.chance(1, 4):
+            # API calls while the search is under way (non-timer events for the handler loop)
+            for dt in (700 * MS, 2 * S, 2900 * MS):
+                sc.add("at %d state n" % (t + dt))
         t += rng.choice([0, 1 * MS, 200 * MS, 2 * S, 8 * S])
     if hostile:
         other = addr_in_family(rng, v6, 9000)
@@ -214,7 +227,7 @@ def gen_lookup(rng, consts, hostile=False, faults=False, early=False, sizes=None
             sc.add("at %d injectmsg %s %s t=%s r id=%040x values=%s nodes= nodes6= token=%s" % (
                 base + rng.below(6 * S), other.script(), naddr.script(), rng.bytes(8).hex(), comp.rand_id(rng),
                 comp.rand_addr(rng, v6).script(), "6666"))
-    tend = t + 40 * S
+    tend = t + 100 * S
     sc.add("at %d contacts n" % (tend - 1 * S))
     sc.add("at %d state n" % (tend - 1 * S))
     sc.add("end %d" % tend)
@@ -313,6 +326,10 @@ def gen_bootstrap(rng, consts):
         sc.add_resp("r%d" % i, a, idv, mode)
         world.append((idv, a))
         resp.append((a, mode))
+    if world and rng.chance(1, 3):
+        # the same address named under a second id (an id change / a liar): both become table entries
+        for _ in range(rng.range(1, 2)):
+            world.append((comp.rand_id(rng), world[rng.below(len(world))][1]))
     if world:
         sc.add("world " + " ".join("%040x@%s" % (i, a.script()) for i, a in world))
     addrs = [a for a, _ in resp]
@@ -352,6 +369,8 @@ def gen_bootstrap(rng, consts):
         sc.add("at %d state n" % t)
         sc.add("at %d localaddr n" % t)
     sc.add("at %d contacts n" % (end - 1 * S))
+    sc.add("at %d contacts n" % (tau + 30 * S))
+    sc.add("at %d contacts n" % (end // 2))
     sc.add("end %d" % end)
     meta = {"kind": kind, "tau": tau, "ncontacts": n, "modes": [m for _, m in resp], "end": end,
             "has_normal": any(m == "normal" for _, m in resp), "routers": bool(routers)}
@@ -540,3 +559,38 @@ def gen_bigtable_server(rng, consts):
     sc.add("at %d contacts n" % (t + 1 * S))
     sc.add("end %d" % (t + 3 * S))
     return sc, {"own": own, "naddr": naddr.script(), "src": src.script(), "pairs": pairs, "n": n}
+
+
+def gen_stillborn(rng, consts):
+    """C12: a search on a node that knows no good node ends at once without sending anything; afterwards a stranger sprays
+    responses carrying every action prefix of the first id block (the still-born search's among them)."""
+    sc = simlib.Scenario()
+    v6 = rng.chance(1, 4)
+    own = comp.rand_id(rng)
+    naddr = addr_in_family(rng, v6, 1)
+    sc.add("seed %d" % rng.below(1 << 30))
+    sc.add("latency %d %d" % (1 * MS, 5 * MS))
+    n = rng.choice([0, 0, 1, 2])
+    dead = []
+    for i in range(n):
+        a = addr_in_family(rng, v6, 100 + i)
+        sc.add_resp("r%d" % i, a, comp.rand_id(rng), "silent")
+        dead.append(a)
+    sc.add_node("n", naddr, own, ro=rng.chance(1, 2), aport=None, nodes=dead)
+    t = rng.choice([0, 10 * MS, 6 * S])
+    for k in range(rng.range(1, 3)):
+        sc.add("at %d search n %040x %d s%d" % (t, comp.rand_id(rng), rng.below(2), k))
+        t += rng.choice([1 * MS, 1 * S])
+    t += 5 * S
+    src = addr_in_family(rng, v6, 7000)
+    sid = comp.rand_id(rng)
+    named = "%040x@%s" % (comp.rand_id(rng), addr_in_family(rng, v6, 7001).script())
+    block = consts.get("txn_action_id_prealloc_len", 2048)
+    for aid in range(block):
+        t += 1 * MS
+        sc.add("at %d injectmsg %s %s t=%010x%06x r id=%040x values= nodes=%s nodes6=%s token=-" % (
+            t, src.script(), naddr.script(), aid, rng.below(4), sid, "" if v6 else named, named if v6 else ""))
+    sc.add("at %d contacts n" % (t + 1 * S))
+    sc.add("at %d state n" % (t + 1 * S))
+    sc.add("end %d" % (t + 3 * S))
+    return sc, {"own": own, "naddr": naddr, "v6": v6}
